@@ -17,8 +17,26 @@ one() {
   git -C /repo worktree add --detach "$wt" HEAD -q >/dev/null 2>&1 || { echo "$name: worktree failed"; return; }
   # uncommitted contract files of /repo (work in progress) are part of the machinery under test
   (cd /repo && git ls-files -m -o --exclude-standard | grep 'verif_contracts.*\.go$' | while read f; do mkdir -p "$wt/$(dirname $f)"; cp "$f" "$wt/$f"; done)
-  if ! git -C "$wt" apply "/verif/$d/patch.diff" 2>/dev/null; then echo "$name: PATCH DID NOT APPLY"; git -C /repo worktree remove --force "$wt"; return; fi
-  ps="$props"; [ -z "$ps" ] && ps=$(python3 -c "import json;print(' '.join(json.load(open('$d/meta.json'))['checks'].keys()))")
+  if ! git -C "$wt" apply "/verif/$d/patch.diff" 2>/dev/null && ! git -C "$wt" apply -3 "/verif/$d/patch.diff" 2>/dev/null && ! (cd "$wt" && patch -p1 --fuzz=3 -s < "/verif/$d/patch.diff" >/dev/null 2>&1); then echo "$name: PATCH DID NOT APPLY"; git -C /repo worktree remove --force "$wt"; return; fi
+  # which checks to run: explicit list, else every property whose contracts live in a package the patch touches
+  ps="$props"; [ -z "$ps" ] && ps=$(python3 - "$d/patch.diff" <<'PY'
+import re,sys
+m=[('pkg/cpuallocator','C08 C01'),('pkg/resmgr/lib/memory','C06 C07 C04'),('cmd/plugins/topology-aware','C01 C03 C04 C09 C12 C13 C16'),
+   ('cmd/plugins/balloons','C02 C09 C12 C13 C19'),('pkg/resmgr/cache','C05 C10 C11 C14 C18 C19 C20'),('pkg/resmgr/','C05 C11 C13 C14 C15'),
+   ('pkg/kubernetes','C20 C03'),('pkg/agent','C17 C14'),('pkg/apis/resmgr','C19 C14'),('pkg/apis/config','C19 C12 C02'),
+   ('cmd/plugins/memory-qos','C14 C18'),('cmd/plugins/memtierd','C14 C18'),('cmd/plugins/sgx-epc','C14 C18'),('pkg/sysfs','C16')]
+out=[]
+for l in open(sys.argv[1]):
+    if l.startswith('+++ b/'):
+        f=l[6:].strip()
+        for pre,ps in m:
+            if f.startswith(pre):
+                for x in ps.split():
+                    if x not in out: out.append(x)
+                break
+print(' '.join(out))
+PY
+)
   res="{}"
   for p in $ps; do
     o=$(./bin/govc check -prop "$p" -repo "$wt" -verif "$vf" -workers 5 2>&1); rc=$?
@@ -29,7 +47,7 @@ one() {
   python3 - "$d" "$res" <<'PY'
 import json,sys
 d,res=sys.argv[1],json.loads(sys.argv[2])
-m=json.load(open(d+'/meta.json')); m['checks']=res; m['caught']=any(v['exit']==1 for v in res.values())
+m=json.load(open(d+'/meta.json')); m['checks']=res; m['caught']=any(v['exit']==1 for v in res.values()); m['checked_at_repo_commit']=__import__('subprocess').run(['git','-C','/repo','rev-parse','--short','HEAD'],capture_output=True,text=True).stdout.strip()
 json.dump(m,open(d+'/meta.json','w'),indent=1)
 print(d, "caught" if m['caught'] else "MISSED", {k:(v['exit'],v['violations']) for k,v in res.items()}, flush=True)
 PY
